@@ -31,7 +31,7 @@ EXTENDS Integers, Sequences, FiniteSets, TLC, Json
 
 CONSTANTS MaxDepth,            \* bound on history length
           Starts,              \* names of the initial drawings explored
-          Ops,                 \* enabled operation families (strings)
+          Ops,                 \* enabled operation families: remove, clean, mask, flip, reverse, explode, transform, copy, concat, read
           \* deviations of the code on the pinned tree (TRUE = as built)
           DevArcLen2,          \* Arc.length returns twice the arc length
           DevExplodeDropsColor,\* Line.explode copies the layer but not the colour
